@@ -2,7 +2,7 @@
 
 Two correspondence streams (see harness/c07/main.cpp and lean/FeatModel/Driver/C07.lean):
   control : the stopping-criterion state machine of IterativeSolver at double, fed with dyadic / non-finite defects
-  solvers : sessions of apply()/correct() calls on one real PCG / Richardson / PCR / PMR / PCGNR / BiCGStab object at the exact scalar Q
+  solvers : sessions of apply()/correct() calls on one real PCG / Richardson / PCR / PMR / PCGNR / BiCGStab / Chebyshev object at the exact scalar Q
 The oracle below is independent Python (fractions): it recomputes the true residual ||F(b - A x)|| from the returned
 iterate, a dense reference solution, and judges the reported status against the configured limits and the defects
 the solver produced.
@@ -54,7 +54,7 @@ OVERSIZE = 3000000       # characters of one implementation output line (largest
 # measured while the oracle runs; written into the evidence file
 STATS = {"terminal_status": {}, "input_classes": {}, "max_iters_seen": 0, "exact_reference_hits": 0,
          "true_residual_checks": 0, "pair_checks": 0,
-         "half_step_exits_checked": 0, "leak_probe_solves": 0}
+         "half_step_exits_checked": 0, "criteria": {}}
 
 
 def bump(d, k, n=1):
@@ -371,6 +371,42 @@ def gen_nonsym(rng, n, dominant=True):
     return a
 
 
+def power_steps(a, tol=1e-4):
+    """floating-point rehearsal of Chebyshev::init_numeric's power method: number of steps until it stops"""
+    n = len(a)
+    v = [3.0] * n
+    nv = math.sqrt(sum(x * x for x in v))
+    v = [x / nv for x in v]
+    old = 0.0
+    for i in range(40):
+        z = [sum(float(a[r][j]) * v[j] for j in range(n)) for r in range(n)]
+        nz = math.sqrt(sum(x * x for x in z))
+        if nz == 0.0:
+            return 99
+        v = [x / nz for x in z]
+        lam = sum(x * y for x, y in zip(v, z))
+        if lam == 0.0:
+            return 99
+        if abs((lam - old) / lam) < tol:
+            return i + 1
+        old = lam
+    return 40
+
+
+def gen_gap(rng, n):
+    """SPD matrix D + t*w*w^T with one strongly dominant eigenvalue, so that the power method of Chebyshev stops after
+    a few steps (the exact rationals double in length per normalisation)"""
+    for _ in range(50):
+        w = [Fr(rng.randrange(1, 4)) for _ in range(n)]
+        t = Fr(rng.choice([20, 50, 100]))
+        a = [[t * w[i] * w[j] for j in range(n)] for i in range(n)]
+        for i in range(n):
+            a[i][i] += Fr(rng.choice([1, 2, 3]), rng.choice([1, 2]))
+        if power_steps(a) <= 3:
+            return a
+    return [[Fr(7) if i == j else Fr(0) for j in range(n)] for i in range(n)]
+
+
 def fmt_vec(v):
     return " ".join(fs(x) for x in v)
 
@@ -380,11 +416,14 @@ def fmt_mat(a):
 
 
 def gen_solve(rng, tier):
-    kind = rng.choice(["pcg", "pcg", "pcg", "rich", "rich", "pcr", "pmr", "pcgnr", "bicgstab", "bicgstab"])
+    kind = rng.choice(["pcg", "pcg", "pcg", "rich", "rich", "pcr", "pmr", "pcgnr", "bicgstab", "bicgstab", "cheb"])
     n = rng.choice([1, 2, 2, 3, 3, 4, 4, 5, 6] if tier == "quick" else [1, 2, 3, 3, 4, 4, 5, 5, 6, 7])
     tags = []
     # matrix class
-    if kind == "pcgnr":
+    if kind == "cheb":
+        mc = "gap"
+        n = min(n, 5)
+    elif kind == "pcgnr":
         mc = rng.choice(["spd", "nonsym", "nonsym", "indef"])
     elif kind in ("pcg", "pcr", "pmr"):
         mc = rng.choice(["spd", "spd", "spd", "spd", "nonsym", "indef"])
@@ -392,7 +431,9 @@ def gen_solve(rng, tier):
         mc = rng.choice(["spd", "nonsym", "nonsym", "indef"])
     else:
         mc = rng.choice(["spd", "nonsym", "nonsym", "nonsym", "indef"])
-    if mc == "spd":
+    if mc == "gap":
+        a = gen_gap(rng, n)
+    elif mc == "spd":
         a = gen_spd(rng, n)
     elif mc == "nonsym":
         a = gen_nonsym(rng, n, True)
@@ -412,8 +453,13 @@ def gen_solve(rng, tier):
     # preconditioner
     pr = rng.random()
     pclass = "none"
-    if pr < 0.4:
+    if pr < 0.3 or kind == "cheb":
         ptoks = ["none"]
+    elif pr < 0.55 and all(a[i][i] != 0 for i in range(n)):
+        # one of FEAT's own preconditioners (property C08) with damping w
+        fk = rng.choice(["jac", "sor", "ssor"])
+        pclass = "feat-" + fk
+        ptoks = [fk, fs(rng.choice([Fr(1), Fr(1), Fr(1, 2), Fr(3, 4), Fr(5, 4)]))]
     else:
         if pr < 0.65 and all(a[i][i] != 0 for i in range(n)):
             pclass = "jacobi"
@@ -436,7 +482,7 @@ def gen_solve(rng, tier):
         fail_at = rng.randrange(1, 6) if pclass == "failing" else 0
         ptoks = ["mat", fmt_mat(m), str(fail_at)]
     # configuration
-    goal = rng.choice(["exact", "exact", "loose", "loose", "maxit", "stag", "div", "fixed", "any"])
+    goal = rng.choice(["exact", "exact", "loose", "loose", "maxit", "stag", "div", "fixed", "any", "absbind", "lowesc"])
     cfg = Cfg(tol_rel=Fr(1, 10 ** rng.randrange(1, 7)), tol_abs=Fr(10 ** 9), tol_abs_low=Fr(0), div_rel=Fr(10 ** 9),
               div_abs=Fr(10 ** 12), stag_rate=Fr(19, 20), min_iter=0, max_iter=3 * n + 4, min_stag=0,
               skip=rng.random() < 0.7)
@@ -477,13 +523,15 @@ def gen_solve(rng, tier):
         cfg.stag_rate = rng.choice([Fr(1, 2), Fr(19, 20)])
     if kind != "rich":
         # exact rationals roughly double in length per Krylov iteration once the method leaves its scope
-        if kind in ("bicgstab", "rbicgstab"):
+        if kind == "cheb":
+            cap = 6
+        elif kind in ("bicgstab", "rbicgstab"):
             cap = 6
         elif kind == "pcgnr":
-            cap = 6
+            cap = 6 if pclass == "none" else 3  # the normal equations square the size of the rationals
         elif kind == "pmr":
             cap = 5  # no finite termination: the rationals double per iteration
-        elif mc == "spd" and pclass in ("none", "jacobi", "spd"):
+        elif mc == "spd" and pclass in ("none", "jacobi", "spd", "feat-jac", "feat-ssor"):
             cap = 9 if tier == "quick" else 10
         else:
             cap = 5
@@ -499,6 +547,8 @@ def gen_solve(rng, tier):
         if goal == "exact":
             cfg.tol_rel = Fr(1, 10 ** rng.randrange(2, 5))
             cfg.max_iter = rng.choice([20, 40])
+    elif kind == "cheb":
+        omega = rng.choice([Fr(3, 4), Fr(1), Fr(9, 8)])  # fraction_max_ev
     else:
         omega = Fr(1)
     # the solves of the session
@@ -534,6 +584,27 @@ def gen_solve(rng, tier):
                     if xs is not None:
                         x0 = xs
         solves.append((mode, x0, b, rng.choice([0, 0, 0, 1, 2])))
+    if goal in ("absbind", "lowesc"):
+        # tolerances relative to the first solve's initial defect d0:
+        #   absbind: tol_abs < tol_rel*d0, so the ABSOLUTE tolerance is the binding one;
+        #   lowesc : the relative criterion is out of reach, success only through the tol_abs_low escape
+        mode0, x00, b0, _ = solves[0]
+        if mode0 == "a":
+            r0 = b0
+        else:
+            ax = mat_vec(a, x00)
+            r0 = [Fr(0) if i in cons else b0[i] - ax[i] for i in range(n)]
+        d0 = norm2(r0)
+        if d0 > 0:
+            if goal == "absbind":
+                cfg.tol_rel = Fr(1, 2)
+                cfg.tol_abs = d0 * rng.choice([Fr(1, 10), Fr(1, 100), Fr(1, 1000)])
+                cfg.tol_abs_low = Fr(0)
+            else:
+                cfg.tol_rel = Fr(1, 10 ** 12)
+                cfg.tol_abs = Fr(10 ** 9)
+                cfg.tol_abs_low = d0 * rng.choice([Fr(1, 4), Fr(1, 20), Fr(1, 200)])
+            cfg.min_iter = rng.choice([0, 0, 1])
     toks = ["solve", kind, str(n), fmt_mat(a)] + ftoks + ptoks + cfg.tokens(False) + [fs(omega), str(ns)]
     for mode, x0, b, re in solves:
         toks += [mode, fmt_vec(x0), fmt_vec(b), str(re)]
@@ -578,7 +649,9 @@ class SolveCase:
             m = int(tok())
             self.cons = [int(tok()) for _ in range(m)]
         self.pk = tok()
-        self.m, self.fail_at = None, 0
+        self.m, self.fail_at, self.fpre = None, 0, None
+        if self.pk in ("jac", "sor", "ssor"):
+            self.fpre = (self.pk, vlib.parse_frac(tok()))
         if self.pk == "mat":
             self.m = [frs(n) for _ in range(n)]
             self.fail_at = int(tok())
@@ -641,10 +714,13 @@ def in_scope(sc):
     aff = [[sc.a[i][j] for j in free] for i in free]
     if sc.kind == "pcgnr":
         # CG on the normal equations: any nonsingular matrix (unfiltered, unpreconditioned here)
-        return not sc.cons and sc.m is None and solve_dense(sc.a, [Fr(0)] * sc.n) is not None
+        return not sc.cons and sc.m is None and sc.fpre is None and solve_dense(sc.a, [Fr(0)] * sc.n) is not None
     if sc.kind in ("pcg", "pcr", "pmr"):
         if not is_spd(aff):
             return False
+        if sc.fpre is not None:
+            # Jacobi and SSOR (0 < w < 2) of an SPD matrix are SPD, also after the correction filter; SOR is not symmetric
+            return sc.fpre[0] in ("jac", "ssor") and 0 < sc.fpre[1] < 2 and is_spd(sc.a)
         if sc.m is not None:
             if sc.fail_at:
                 return False
@@ -805,6 +881,12 @@ def oracle_solve(case, out):
             if st == 2 and it > 0:
                 if not (true_res <= cfg.tol_abs and (true_res <= cfg.tol_rel * d0_true or true_res <= cfg.tol_abs_low)):
                     return tag + "'success' but the true residual %s violates the tolerances" % true_res
+                if cfg.tol_abs < cfg.tol_rel * d0_true:
+                    bump(STATS["criteria"], sc.kind + ":tol_abs-binding")
+                if true_res > cfg.tol_rel * d0_true:
+                    bump(STATS["criteria"], sc.kind + ":tol_abs_low-escape")
+            if it > 0 and cfg.min_iter > cfg.max_iter:
+                bump(STATS["criteria"], sc.kind + ":min_iter>max_iter")
             if st == 4 and not (true_res > cfg.div_abs or true_res > cfg.div_rel * d0_true):
                 return tag + "'diverged' but the true residual is within the divergence limits"
         else:
@@ -991,7 +1073,7 @@ def describe(case):
         return ["op:solved", "t3-solver:" + t[1], "t3-n:" + t[2]]
     sc = SolveCase(case)
     keys = ["op:solve", "solver:" + sc.kind, "n:%d" % sc.n, "filter:%s" % (sc.filter if not sc.cons else "unit+%d" % len(sc.cons)),
-            "precond:" + ("none" if sc.m is None else ("failing" if sc.fail_at else "matrix")),
+            "precond:" + (("feat-" + sc.fpre[0]) if sc.fpre else "none" if sc.m is None else ("failing" if sc.fail_at else "matrix")),
             "solves:%d" % len(sc.solves), "scope:" + ("in" if in_scope(sc) else "out")]
     if case in PROBE_SET:
         keys.append("probe:state-leak")
@@ -1064,6 +1146,11 @@ CORPUS = [
     "solve bicgstab 2 3 1 -1 2 none none 0 1000000000 0 1000000000 1000000000000 19/20 0 9 0 1 1 2 a 1 1 1 2 0 c 0 0 1 2 0",
     "solve pcgnr 2 3 1 -1 2 none none 0 1000000000 0 1000000000 1000000000000 19/20 0 6 0 1 1 2 a 1 1 1 2 0 c 0 0 1 2 1",
     "solve pcgnr 3 2 1 0 -1 3 1 0 0 -2 unit 1 1 mat 1/3 0 0 0 0 0 0 0 1/2 0 1/100 1000000000 0 1000000000 1000000000000 19/20 0 6 2 1 1 2 a 1 1 1 1 0 2 0 c 0 5 1 1 2 3 2",
+    "solve cheb 2 51 0 0 1 none none 1/1000 1000000000 0 1000000000 1000000000000 19/20 0 5 0 1 1 2 a 0 0 1 2 0 c 1 1 1 2 2",
+    "solve cheb 3 11 10 0 10 12 1 0 1 2 unit 1 2 none 1/10 1000000000 0 1000000000 1000000000000 19/20 0 6 1 1 3/4 1 c 1 0 5 1 2 3 0",
+    "solve pcg 3 4 -1 0 -1 4 -1 0 -1 4 none ssor 1 0 1000000000 0 1000000000 1000000000000 19/20 0 9 0 1 1 2 a 9 9 9 1 2 3 0 c 1 1 1 1 2 3 2",
+    "solve bicgstab 3 4 -1 0 -2 4 -1 0 -2 4 unit 1 1 sor 3/4 1/1000 1000000000 0 1000000000 1000000000000 19/20 0 6 0 1 1 1 c 1 5 1 1 2 3 0",
+    "solve rich 3 4 -1 0 -1 4 -1 0 -1 4 none jac 1/2 1/100 1000000000 0 1000000000 1000000000000 19/20 0 20 0 1 1 1 a 0 0 0 1 2 3 0",
     "solve pmr 2 2 1 1 3 none mat 1/2 0 0 1/3 0 1/100 1000000000 0 1000000000 1000000000000 19/20 0 5 0 1 1 2 a 9 9 1 2 0 c 1 1 1 2 2",
     # Richardson with a diverging damping parameter and a fixed iteration count: open finding c07-edge:F3
     "solve rich 1 1 none none 1 1000000000 0 1000000000 1000000000000 19/20 2 2 0 1 3 1 a 0 1 0",
@@ -1124,7 +1211,7 @@ def main(argv):
                      "and plot settings, values placed exactly on the thresholds; non-trivial = at least 3 defects. "
                      "solvers: sessions of 1..4 apply()/correct() calls with re-initialisation on one real PCG / Richardson / "
                      "PCR / BiCGStab object at the exact scalar, SPD / diagonally dominant nonsymmetric / indefinite matrices "
-                     "of size 1..8, NoneFilter / UnitFilter, no / Jacobi / SPD / arbitrary / failing preconditioner; "
+                     "of size 1..8, NoneFilter / UnitFilter, no / mock (Jacobi, SPD, arbitrary, failing) / FEAT's own Jacobi, SOR, SSOR preconditioner; "
                      "non-trivial = system size >= 2. double-precision (T3, supporting evidence): real PCG / PCR / PCGNR / BiCGStab / FGMRES(4) "
                      "at double on SPD / diagonally dominant systems of size 2..12 with exactly representable data; "
                      "'success' => true residual of the returned doubles (exact arithmetic) <= tol*(1+2^-20) + "
